@@ -203,8 +203,10 @@ def collStep (sch : Schema) (del : ObjId → Store → R) (o : ObjId) (c : Attr)
     else .error .constraintError                                             -- Cannot delete: non-empty set
   | _, _ => .error .noSuchAttr
 
-/-- the body of the second loop of `_delete_` for attribute `a` of object `o` -/
-def refStep (sch : Schema) (del : ObjId → Store → R) (o : ObjId) (a : Attr) (s : Store) : R :=
+/-- the body of the second loop of `_delete_` for attribute `a` of object `o`.
+    `guard` = the tree has the re-entrancy guard of fixes/C15-cascade-cycle-recursion.diff (then a partner that a cascade
+    cycle already deleted is skipped instead of being written to) -/
+def refStep (sch : Schema) (guard : Bool) (del : ObjId → Store → R) (o : ObjId) (a : Attr) (s : Store) : R :=
   match sch.side a, sch.side (sch.rev a) with
   | some d, some rd =>
     if d.isColl then .ok s else
@@ -213,23 +215,26 @@ def refStep (sch : Schema) (del : ObjId → Store → R) (o : ObjId) (a : Attr) 
     | some x =>
       if !rd.isColl then
         if d.cascade then del x s                                            -- val._delete_(undo_funcs)
-        else if !rd.required then                                            -- if val._vals_.get(reverse, obj) is obj:
-          if s.ref x (sch.rev a) = some o then clearRef sch x (sch.rev a) s  --   reverse.__set__(val, None, undo_funcs)
+        else if !rd.required then
+          if guard && !s.alive x then .ok s                                  -- (guarded tree) if val._status_ in del_statuses: pass
+          else if s.ref x (sch.rev a) = some o then clearRef sch x (sch.rev a) s  -- if val._vals_.get(reverse, obj) is obj: reverse.__set__(val, None, ..)
           else .ok s
         else .error .constraintError                                         -- Cannot delete: has associated
       else reverseRemove1 (sch.rev a) x o s                                  -- reverse.reverse_remove((val,), obj, undo_funcs)
   | _, _ => .error .noSuchAttr
 
-/-- `Entity._delete_(obj=o, undo_funcs)` -/
-def delete (sch : Schema) : Nat → ObjId → Store → R
-  | 0, _, _ => .error .recursionError
-  | fuel + 1, o, s =>
+/-- `Entity._delete_(obj=o, undo_funcs)`.  `P` = the objects whose `_delete_` is in progress further up the call stack
+    (`cache.objects_being_deleted` of the guarded tree; carried along but not consulted when `guard = false`). -/
+def delete (sch : Schema) (guard : Bool) : Nat → List ObjId → ObjId → Store → R
+  | 0, _, _, _ => .error .recursionError
+  | fuel + 1, P, o, s =>
+    if guard && P.contains o then .ok s else                                 -- (guarded tree) if obj in objects_being_deleted: return
     if !s.alive o then .ok s else                                            -- status in del_statuses: return
     let attrs := sch.attrsOf (s.ent o)
-    match iterE (collStep sch (fun x s => delete sch fuel x s) o) attrs s with
+    match iterE (collStep sch (fun x s => delete sch guard fuel (o :: P) x s) o) attrs s with
     | .error e => .error e
     | .ok s1 =>
-      match iterE (refStep sch (fun x s => delete sch fuel x s) o) attrs s1 with
+      match iterE (refStep sch guard (fun x s => delete sch guard fuel (o :: P) x s) o) attrs s1 with
       | .error e => .error e
       | .ok s2 =>
         if !s2.alive o then .ok s2                                           -- a nested _delete_ of this object (cascade cycle) already finished
@@ -239,9 +244,9 @@ def delete (sch : Schema) : Nat → ObjId → Store → R
 def fuelOf (sch : Schema) (s : Store) : Nat := (2 * sch.length + 2) * (s.n + 1)
 
 /-- `Entity.delete()`: a failing call runs the undo list, i.e. the store is what it was -/
-def deleteTop (sch : Schema) (s : Store) (o : ObjId) : Store × Option Err :=
+def deleteTop (sch : Schema) (guard : Bool) (s : Store) (o : ObjId) : Store × Option Err :=
   if o < s.n then
-    match delete sch (fuelOf sch s) o s with
+    match delete sch guard (fuelOf sch s) [] o s with
     | .ok s' => (s', none)
     | .error e => (s, some e)
   else (s, some .noSuchObject)
